@@ -307,9 +307,9 @@ func (bc *boundCtx) leLen(v, s ssa.Value, strict bool, at ssa.Instruction, depth
 								return true
 							case b.Op == token.NEQ && ec.Val && m == 0 && (n == 0 || (n == 1 && !strict)): // len != 0, spelled so
 								return true
-							case b.Op == token.GTR && ec.Val && m >= n:
+							case b.Op == token.GTR && ec.Val && (m >= n || (!strict && m+1 >= n)): // len > m, i.e. len >= m+1
 								return true
-							case b.Op == token.LEQ && !ec.Val && m >= n: // !(len <= m)
+							case b.Op == token.LEQ && !ec.Val && (m >= n || (!strict && m+1 >= n)): // !(len <= m)
 								return true
 							case b.Op == token.GEQ && ec.Val && (m > n || (!strict && m >= n)): // len >= m
 								return true
